@@ -91,6 +91,16 @@ SoundKey(evs, k, dur) ==
     LET a == FoldLeft(SoundAcc, [cnt |-> 0, since |-> -1, ticks |-> {}], OfKey(evs, k))
     IN IF a.cnt > 0 THEN a.ticks \cup (a.since .. (dur - 1)) ELSE a.ticks
 Sounding(evs, dur) == UNION {{<<k[1], k[2], t>> : t \in SoundKey(evs, k, dur)} : k \in KeysOf(evs)}
+(* the same automaton collecting maximal sounding intervals <<start, end>> instead of ticks (unclosed notes end at dur) *)
+IntervalAcc(a, m) ==
+    IF m.ty = "on"
+    THEN IF a.cnt = 0 THEN [a EXCEPT !.cnt = 1, !.since = m.t] ELSE [a EXCEPT !.cnt = @ + 1]
+    ELSE IF a.cnt = 0 THEN a
+         ELSE IF a.cnt = 1 THEN [cnt |-> 0, since |-> -1, ivs |-> a.ivs \cup {<<a.since, m.t>>}]
+         ELSE [a EXCEPT !.cnt = @ - 1]
+IntervalsKey(evs, k, dur) ==
+    LET a == FoldLeft(IntervalAcc, [cnt |-> 0, since |-> -1, ivs |-> {}], OfKey(evs, k))
+    IN IF a.cnt > 0 THEN a.ivs \cup {<<a.since, dur>>} ELSE a.ivs
 ShiftSound(S, by) == {<<x[1], x[2], x[3] + by>> : x \in S}
 
 (* nesting never negative and zero at the end *)
